@@ -91,6 +91,9 @@ func c07Check(c C07Case) *pbt.Violation {
 		return c07CheckConn(c)
 	}
 	for i, f := range c.Frames {
+		if (i+len(c.Frames))%3 == 0 {
+			noisePacket()
+		}
 		p := pk.Packet{ID: f.ID, Data: f.payload()}
 		orig := append([]byte{}, p.Data...)
 		offsets = append(offsets, stream.Len())
@@ -133,6 +136,9 @@ func c07Check(c C07Case) *pbt.Violation {
 		var err error
 		if c.Keep {
 			recv = pk.Packet{}
+		}
+		if (i+len(c.Frames))%4 == 1 {
+			noisePacket()
 		}
 		if pv, stack := pbt.Try(func() { err = recv.UnPack(rd, c.Threshold) }); pv != nil {
 			return pbt.V(pbt.PanicKey("c07.unpack", stack), "no panic", "UnPack #%d panicked: %v\n%s", i, pv, stack)
